@@ -28,8 +28,10 @@ def build(chk, ip, runner):
         units.append(u)
     # one group-exchange probe: one reconnect, at most one request, socket closed on every exit, nothing escapes
     units += c12_gex.send_init_units()
+    # re-opening the connection for a probe: at most one connect, nothing escapes (only struct.error can leave SSH2_Kex.parse: C10)
+    units += c12_gex.reconnect_units()
     chk.units = units
-    chk.stubs = c12_gex.stubs() + c12_gex.send_init_stubs() + [c for c in c11_hostkey.perform_stubs() if c.qual != 'SSH2_KexDB.get_db']
+    chk.stubs = c12_gex.stubs() + c12_gex.send_init_stubs() + [c for c in c11_hostkey.perform_stubs() if c.qual not in ('SSH2_KexDB.get_db', 'SSH2_Kex.parse', 'traceback:format_exc')] + c12_gex.reconnect_stubs()
     chk.assumptions = ['the units see the peer only through abstract socket / KexDH / _send_init contracts (any result, KexDHException possible); connect() is counted, not dialled',
                        'closing relies on SSH_Socket.close being called (checked at the fake socket in the bounded part); CPython finalisers are not modelled']
     chk.customs = [custom_native]
